@@ -34,3 +34,7 @@ Definition mode_in (m : pmode) (l : list cmpop) : bool := existsb (mode_is m) l.
 Definition op_of_mode (m : pmode) : cmpop := match m with MOp o => o | MStr _ => OpEq end.
 
 Definition opt_get_op (o : option cmpop) : cmpop := match o with Some v => v | None => OpGe end.
+
+(* reading a labelled 1-D table (the 'contingency' dimension of a manager's xarray table): `table.sel(contingency=k)` and `table[n]` *)
+Definition by_label {A} (k : string) (t : list (string * A)) : option A := assoc k t.
+Definition by_pos {A} (n : nat) (t : list (string * A)) : option A := option_map snd (nth_error t n).
